@@ -256,6 +256,9 @@ def gen_http(r, i, big=False):
     elif big or r.random() < 0.04:
         lines.insert(r.randrange(len(lines) + 1), b'X-Big: ' + b'b' * r.choice([4000, 4090, 4200, 9000]))
     r.shuffle(lines)
+    if len(lines) >= 2 and r.random() < 0.06:
+        # an (obsolete but legal) folded continuation line that holds white space only: not the end of the header block
+        lines.insert(r.randrange(1, len(lines)), r.choice([b' ', b'\t', b'  \t ']))
     body_len = r.choice([0, 0, 1, 5, 40, 200, 400])
     body = _bytes(r, body_len)
     no_body = code in (204, 304) or code < 200
